@@ -1063,6 +1063,21 @@ fn solo(args: &[String]) -> Value {
     // all programs are parsed once; every thread runs every program `reps` times, starting at a
     // different program so that different programs run side by side, and the very first use of
     // the lazily initialised helpers happens concurrently
+    // programs over cells the checker must REFUSE (a handle that may be one of several cells of different types is
+    // assigned a value only some of them can hold); one that is accepted is run like the others: it must not panic
+    let must_refuse = [
+        "hits := mut int 0; ratio := mut float 0.5; for c in [hits, ratio]~ { c = 0 }; ratio += 0.25; *ratio",
+        "hits := mut int 0; ratio := mut float 0.5; cs := [hits, ratio]; cs[1] = 0; ratio += 0.25; *ratio",
+        "ratio := mut float 0.5; rst := (c: mut int | mut float) { c = 0 }; rst(ratio); ratio += 0.25; *ratio",
+        "n := mut int 1; w := (q: mut (int|float)) { q = 2.5 }; w(n); n += 1; *n",
+    ];
+    let mut accepted_negatives: Vec<String> = vec![];
+    for text in must_refuse {
+        if let Ok(Ok(_)) = catch(|| Code::parse(&host, text)) {
+            accepted_negatives.push(text.to_string());
+        }
+    }
+    let corpus: Vec<String> = corpus.into_iter().chain(accepted_negatives.iter().cloned()).collect();
     let codes: Vec<(String, Arc<Code>)> = corpus
         .iter()
         .filter_map(|text| match catch(|| Code::parse(&host, text)) {
@@ -1107,6 +1122,10 @@ fn solo(args: &[String]) -> Value {
                     runs += 1;
                     if *got != reference[*idx] {
                         mismatches.push(json!({"kind": "solo", "text": shared[*idx].0, "thread": t + 1,
+                            "concurrent": got, "sequential": reference[*idx]}));
+                    } else if got.starts_with("PANIC") {
+                        // a panic is never an outcome, also when the sequential run panics alike
+                        mismatches.push(json!({"kind": "solo-panic", "text": shared[*idx].0, "thread": t + 1,
                             "concurrent": got, "sequential": reference[*idx]}));
                     }
                 }
